@@ -11,89 +11,132 @@ import (
 
 func y(site string) { simhook.Yield(site) }
 
+// ob lets the harness observe shared state right after a mutating atomic operation.
+func ob() { simhook.Observe() }
+
 // Bool wraps atomic.Bool.
 type Bool struct{ v ratomic.Bool }
 
-func (x *Bool) Load() bool                       { y("atomic.Load"); return x.v.Load() }
-func (x *Bool) Store(val bool)                   { y("atomic.Store"); x.v.Store(val) }
-func (x *Bool) Swap(n bool) bool                 { y("atomic.Swap"); return x.v.Swap(n) }
-func (x *Bool) CompareAndSwap(o, n bool) bool    { y("atomic.CAS"); return x.v.CompareAndSwap(o, n) }
+func (x *Bool) Load() bool       { y("atomic.Load"); return x.v.Load() }
+func (x *Bool) Store(val bool)   { y("atomic.Store"); x.v.Store(val); ob() }
+func (x *Bool) Swap(n bool) bool { y("atomic.Swap"); r := x.v.Swap(n); ob(); return r }
+func (x *Bool) CompareAndSwap(o, n bool) bool {
+	y("atomic.CAS")
+	r := x.v.CompareAndSwap(o, n)
+	ob()
+	return r
+}
 
 // Int32 wraps atomic.Int32.
 type Int32 struct{ v ratomic.Int32 }
 
-func (x *Int32) Load() int32                    { y("atomic.Load"); return x.v.Load() }
-func (x *Int32) Store(val int32)                { y("atomic.Store"); x.v.Store(val) }
-func (x *Int32) Swap(n int32) int32             { y("atomic.Swap"); return x.v.Swap(n) }
-func (x *Int32) CompareAndSwap(o, n int32) bool { y("atomic.CAS"); return x.v.CompareAndSwap(o, n) }
-func (x *Int32) Add(d int32) int32              { y("atomic.Add"); return x.v.Add(d) }
-func (x *Int32) And(m int32) int32              { y("atomic.And"); return x.v.And(m) }
-func (x *Int32) Or(m int32) int32               { y("atomic.Or"); return x.v.Or(m) }
+func (x *Int32) Load() int32        { y("atomic.Load"); return x.v.Load() }
+func (x *Int32) Store(val int32)    { y("atomic.Store"); x.v.Store(val); ob() }
+func (x *Int32) Swap(n int32) int32 { y("atomic.Swap"); r := x.v.Swap(n); ob(); return r }
+func (x *Int32) CompareAndSwap(o, n int32) bool {
+	y("atomic.CAS")
+	r := x.v.CompareAndSwap(o, n)
+	ob()
+	return r
+}
+func (x *Int32) Add(d int32) int32 { y("atomic.Add"); r := x.v.Add(d); ob(); return r }
+func (x *Int32) And(m int32) int32 { y("atomic.And"); r := x.v.And(m); ob(); return r }
+func (x *Int32) Or(m int32) int32  { y("atomic.Or"); r := x.v.Or(m); ob(); return r }
 
 // Int64 wraps atomic.Int64.
 type Int64 struct{ v ratomic.Int64 }
 
-func (x *Int64) Load() int64                    { y("atomic.Load"); return x.v.Load() }
-func (x *Int64) Store(val int64)                { y("atomic.Store"); x.v.Store(val) }
-func (x *Int64) Swap(n int64) int64             { y("atomic.Swap"); return x.v.Swap(n) }
-func (x *Int64) CompareAndSwap(o, n int64) bool { y("atomic.CAS"); return x.v.CompareAndSwap(o, n) }
-func (x *Int64) Add(d int64) int64              { y("atomic.Add"); return x.v.Add(d) }
-func (x *Int64) And(m int64) int64              { y("atomic.And"); return x.v.And(m) }
-func (x *Int64) Or(m int64) int64               { y("atomic.Or"); return x.v.Or(m) }
+func (x *Int64) Load() int64        { y("atomic.Load"); return x.v.Load() }
+func (x *Int64) Store(val int64)    { y("atomic.Store"); x.v.Store(val); ob() }
+func (x *Int64) Swap(n int64) int64 { y("atomic.Swap"); r := x.v.Swap(n); ob(); return r }
+func (x *Int64) CompareAndSwap(o, n int64) bool {
+	y("atomic.CAS")
+	r := x.v.CompareAndSwap(o, n)
+	ob()
+	return r
+}
+func (x *Int64) Add(d int64) int64 { y("atomic.Add"); r := x.v.Add(d); ob(); return r }
+func (x *Int64) And(m int64) int64 { y("atomic.And"); r := x.v.And(m); ob(); return r }
+func (x *Int64) Or(m int64) int64  { y("atomic.Or"); r := x.v.Or(m); ob(); return r }
 
 // Uint32 wraps atomic.Uint32.
 type Uint32 struct{ v ratomic.Uint32 }
 
-func (x *Uint32) Load() uint32                    { y("atomic.Load"); return x.v.Load() }
-func (x *Uint32) Store(val uint32)                { y("atomic.Store"); x.v.Store(val) }
-func (x *Uint32) Swap(n uint32) uint32            { y("atomic.Swap"); return x.v.Swap(n) }
-func (x *Uint32) CompareAndSwap(o, n uint32) bool { y("atomic.CAS"); return x.v.CompareAndSwap(o, n) }
-func (x *Uint32) Add(d uint32) uint32             { y("atomic.Add"); return x.v.Add(d) }
-func (x *Uint32) And(m uint32) uint32             { y("atomic.And"); return x.v.And(m) }
-func (x *Uint32) Or(m uint32) uint32              { y("atomic.Or"); return x.v.Or(m) }
+func (x *Uint32) Load() uint32         { y("atomic.Load"); return x.v.Load() }
+func (x *Uint32) Store(val uint32)     { y("atomic.Store"); x.v.Store(val); ob() }
+func (x *Uint32) Swap(n uint32) uint32 { y("atomic.Swap"); r := x.v.Swap(n); ob(); return r }
+func (x *Uint32) CompareAndSwap(o, n uint32) bool {
+	y("atomic.CAS")
+	r := x.v.CompareAndSwap(o, n)
+	ob()
+	return r
+}
+func (x *Uint32) Add(d uint32) uint32 { y("atomic.Add"); r := x.v.Add(d); ob(); return r }
+func (x *Uint32) And(m uint32) uint32 { y("atomic.And"); r := x.v.And(m); ob(); return r }
+func (x *Uint32) Or(m uint32) uint32  { y("atomic.Or"); r := x.v.Or(m); ob(); return r }
 
 // Uint64 wraps atomic.Uint64.
 type Uint64 struct{ v ratomic.Uint64 }
 
-func (x *Uint64) Load() uint64                    { y("atomic.Load"); return x.v.Load() }
-func (x *Uint64) Store(val uint64)                { y("atomic.Store"); x.v.Store(val) }
-func (x *Uint64) Swap(n uint64) uint64            { y("atomic.Swap"); return x.v.Swap(n) }
-func (x *Uint64) CompareAndSwap(o, n uint64) bool { y("atomic.CAS"); return x.v.CompareAndSwap(o, n) }
-func (x *Uint64) Add(d uint64) uint64             { y("atomic.Add"); return x.v.Add(d) }
-func (x *Uint64) And(m uint64) uint64             { y("atomic.And"); return x.v.And(m) }
-func (x *Uint64) Or(m uint64) uint64              { y("atomic.Or"); return x.v.Or(m) }
+func (x *Uint64) Load() uint64         { y("atomic.Load"); return x.v.Load() }
+func (x *Uint64) Store(val uint64)     { y("atomic.Store"); x.v.Store(val); ob() }
+func (x *Uint64) Swap(n uint64) uint64 { y("atomic.Swap"); r := x.v.Swap(n); ob(); return r }
+func (x *Uint64) CompareAndSwap(o, n uint64) bool {
+	y("atomic.CAS")
+	r := x.v.CompareAndSwap(o, n)
+	ob()
+	return r
+}
+func (x *Uint64) Add(d uint64) uint64 { y("atomic.Add"); r := x.v.Add(d); ob(); return r }
+func (x *Uint64) And(m uint64) uint64 { y("atomic.And"); r := x.v.And(m); ob(); return r }
+func (x *Uint64) Or(m uint64) uint64  { y("atomic.Or"); r := x.v.Or(m); ob(); return r }
 
 // Uintptr wraps atomic.Uintptr.
 type Uintptr struct{ v ratomic.Uintptr }
 
-func (x *Uintptr) Load() uintptr                    { y("atomic.Load"); return x.v.Load() }
-func (x *Uintptr) Store(val uintptr)                { y("atomic.Store"); x.v.Store(val) }
-func (x *Uintptr) Swap(n uintptr) uintptr           { y("atomic.Swap"); return x.v.Swap(n) }
-func (x *Uintptr) CompareAndSwap(o, n uintptr) bool { y("atomic.CAS"); return x.v.CompareAndSwap(o, n) }
-func (x *Uintptr) Add(d uintptr) uintptr            { y("atomic.Add"); return x.v.Add(d) }
+func (x *Uintptr) Load() uintptr          { y("atomic.Load"); return x.v.Load() }
+func (x *Uintptr) Store(val uintptr)      { y("atomic.Store"); x.v.Store(val); ob() }
+func (x *Uintptr) Swap(n uintptr) uintptr { y("atomic.Swap"); r := x.v.Swap(n); ob(); return r }
+func (x *Uintptr) CompareAndSwap(o, n uintptr) bool {
+	y("atomic.CAS")
+	r := x.v.CompareAndSwap(o, n)
+	ob()
+	return r
+}
+func (x *Uintptr) Add(d uintptr) uintptr { y("atomic.Add"); r := x.v.Add(d); ob(); return r }
 
 // Pointer wraps atomic.Pointer[T].
 type Pointer[T any] struct{ v ratomic.Pointer[T] }
 
-func (x *Pointer[T]) Load() *T                    { y("atomic.Load"); return x.v.Load() }
-func (x *Pointer[T]) Store(val *T)                { y("atomic.Store"); x.v.Store(val) }
-func (x *Pointer[T]) Swap(n *T) *T                { y("atomic.Swap"); return x.v.Swap(n) }
-func (x *Pointer[T]) CompareAndSwap(o, n *T) bool { y("atomic.CAS"); return x.v.CompareAndSwap(o, n) }
+func (x *Pointer[T]) Load() *T     { y("atomic.Load"); return x.v.Load() }
+func (x *Pointer[T]) Store(val *T) { y("atomic.Store"); x.v.Store(val); ob() }
+func (x *Pointer[T]) Swap(n *T) *T { y("atomic.Swap"); r := x.v.Swap(n); ob(); return r }
+func (x *Pointer[T]) CompareAndSwap(o, n *T) bool {
+	y("atomic.CAS")
+	r := x.v.CompareAndSwap(o, n)
+	ob()
+	return r
+}
 
 // Value wraps atomic.Value.
 type Value struct{ v ratomic.Value }
 
-func (x *Value) Load() any                    { y("atomic.Load"); return x.v.Load() }
-func (x *Value) Store(val any)                { y("atomic.Store"); x.v.Store(val) }
-func (x *Value) Swap(n any) any               { y("atomic.Swap"); return x.v.Swap(n) }
-func (x *Value) CompareAndSwap(o, n any) bool { y("atomic.CAS"); return x.v.CompareAndSwap(o, n) }
+func (x *Value) Load() any      { y("atomic.Load"); return x.v.Load() }
+func (x *Value) Store(val any)  { y("atomic.Store"); x.v.Store(val); ob() }
+func (x *Value) Swap(n any) any { y("atomic.Swap"); r := x.v.Swap(n); ob(); return r }
+func (x *Value) CompareAndSwap(o, n any) bool {
+	y("atomic.CAS")
+	r := x.v.CompareAndSwap(o, n)
+	ob()
+	return r
+}
 
 // Function forms.
 
-func AddInt32(a *int32, d int32) int32       { y("atomic.Add"); return ratomic.AddInt32(a, d) }
-func AddInt64(a *int64, d int64) int64       { y("atomic.Add"); return ratomic.AddInt64(a, d) }
-func AddUint32(a *uint32, d uint32) uint32   { y("atomic.Add"); return ratomic.AddUint32(a, d) }
-func AddUint64(a *uint64, d uint64) uint64   { y("atomic.Add"); return ratomic.AddUint64(a, d) }
+func AddInt32(a *int32, d int32) int32         { y("atomic.Add"); return ratomic.AddInt32(a, d) }
+func AddInt64(a *int64, d int64) int64         { y("atomic.Add"); return ratomic.AddInt64(a, d) }
+func AddUint32(a *uint32, d uint32) uint32     { y("atomic.Add"); return ratomic.AddUint32(a, d) }
+func AddUint64(a *uint64, d uint64) uint64     { y("atomic.Add"); return ratomic.AddUint64(a, d) }
 func AddUintptr(a *uintptr, d uintptr) uintptr { y("atomic.Add"); return ratomic.AddUintptr(a, d) }
 
 func LoadInt32(a *int32) int32       { y("atomic.Load"); return ratomic.LoadInt32(a) }
@@ -116,10 +159,10 @@ func StorePointer(a *unsafe.Pointer, v unsafe.Pointer) {
 	ratomic.StorePointer(a, v)
 }
 
-func SwapInt32(a *int32, v int32) int32       { y("atomic.Swap"); return ratomic.SwapInt32(a, v) }
-func SwapInt64(a *int64, v int64) int64       { y("atomic.Swap"); return ratomic.SwapInt64(a, v) }
-func SwapUint32(a *uint32, v uint32) uint32   { y("atomic.Swap"); return ratomic.SwapUint32(a, v) }
-func SwapUint64(a *uint64, v uint64) uint64   { y("atomic.Swap"); return ratomic.SwapUint64(a, v) }
+func SwapInt32(a *int32, v int32) int32         { y("atomic.Swap"); return ratomic.SwapInt32(a, v) }
+func SwapInt64(a *int64, v int64) int64         { y("atomic.Swap"); return ratomic.SwapInt64(a, v) }
+func SwapUint32(a *uint32, v uint32) uint32     { y("atomic.Swap"); return ratomic.SwapUint32(a, v) }
+func SwapUint64(a *uint64, v uint64) uint64     { y("atomic.Swap"); return ratomic.SwapUint64(a, v) }
 func SwapUintptr(a *uintptr, v uintptr) uintptr { y("atomic.Swap"); return ratomic.SwapUintptr(a, v) }
 
 func CompareAndSwapInt32(a *int32, o, n int32) bool {
